@@ -104,7 +104,12 @@ fn same_result(a: &Outcome, b: &Outcome, first_route_only: bool) -> bool {
         (Outcome::Ok { routes: ra, trees: ta, .. }, Outcome::Ok { routes: rb, trees: tb, .. }) => {
             let key = |r: &Vec<RouteEdge>| r.iter().map(|e| (e.edge, e.access.to_bits(), e.traversal.to_bits(), e.state.iter().map(|x| x.to_bits()).collect::<Vec<_>>())).collect::<Vec<_>>();
             if first_route_only {
-                return ra.first().map(key) == rb.first().map(key);
+                // k-shortest paths: the same set of routes (their order follows hash-ordered candidate lists), trees not compared
+                let mut ka: Vec<_> = ra.iter().map(key).collect();
+                let mut kb: Vec<_> = rb.iter().map(key).collect();
+                ka.sort();
+                kb.sort();
+                return ra.first().map(key) == rb.first().map(key) && ka == kb;
             }
             if ra.len() != rb.len() || ta.len() != tb.len() {
                 return false;
